@@ -591,18 +591,13 @@ func (s *session) handleLogon(msg *Message) error {
 	if s.EnableNextExpectedMsgSeqNum && !msg.Body.Has(tagResetSeqNumFlag) {
 		targetWantsNextSeqNumToBe, getErr := msg.Body.GetInt(tagNextExpectedMsgSeqNum)
 		if getErr == nil {
-			if targetWantsNextSeqNumToBe != nextSenderMsgNumAtLogonReceived {
-				if !s.DisableMessagePersist {
-					if targetWantsNextSeqNumToBe < nextSenderMsgNumAtLogonReceived {
-						// The counterparty has not seen everything we sent: send it again.
-						// (through our Logon reply, which the counterparty has to skip as well: it arrives
-						// ahead of these messages and is not consumed)
-						if resendErr := (inSession{}).resendMessages(s, targetWantsNextSeqNumToBe, s.store.NextSenderMsgSeqNum()-1, *msg); resendErr != nil {
-							return resendErr
-						}
-					}
-				} else {
-					return targetTooHigh{ReceivedTarget: targetWantsNextSeqNumToBe, ExpectedTarget: nextSenderMsgNumAtLogonReceived}
+			if targetWantsNextSeqNumToBe < nextSenderMsgNumAtLogonReceived {
+				// The counterparty has not seen everything we sent: send it again - or, when messages
+				// are not persisted, fill the gap (resendMessages does either).
+				// (through our Logon reply, which the counterparty has to skip as well: it arrives
+				// ahead of these messages and is not consumed)
+				if resendErr := (inSession{}).resendMessages(s, targetWantsNextSeqNumToBe, s.store.NextSenderMsgSeqNum()-1, *msg); resendErr != nil {
+					return resendErr
 				}
 			}
 		}
